@@ -89,9 +89,15 @@ def calc_part(ctx, fails):
     work, exprs = [], []
     for i in range(n):
         t = tuple(ctx.rng.randint(1, 300) for _ in range(4))
+        if i % 4 == 3:          # large counts
+            t = tuple(ctx.rng.randint(20000, 90000) for _ in range(4))
         rt = (ctx.rng.randint(1, 300), ctx.rng.randint(1, 300), ctx.rng.randint(8, 8000) / 8.0, ctx.rng.randint(8, 8000) / 8.0)
+        # the counts as they arrive from a typed column / array: python int, numpy int64, int32, int16
+        st = ['python', 'int32', 'int64', 'int16' if max(t) < 32000 else 'int32'][i % 4]
+        ctx.count('calc: count arguments passed as ' + st)
+        targ = t if st == 'python' else tuple(getattr(np, st)(x) for x in t)
         fam = {}
-        for f, log, args in (('risk_ratio', True, t), ('risk_difference', False, t), ('odds_ratio', True, t),
+        for f, log, args in (('risk_ratio', True, targ), ('risk_difference', False, targ), ('odds_ratio', True, targ),
                              ('incidence_rate_ratio', True, rt), ('incidence_rate_difference', False, rt)):
             fam[f] = (log, {})
             for a in ALPHAS:
